@@ -1,0 +1,43 @@
+//go:build verif
+
+package epochs
+
+// Contracts for the deductive checker in /verif (comment-only; compiled only with -tags verif).
+
+/*@
+// ---- C19: epochs genesis export / import
+func ExportGenesis
+    requires inv: ep_inv(ep_has, ep_val)
+    ensures nonnil: result != nil
+    ensures epochs: result.Epochs == ep_list(ep_has, ep_val)
+    ensures canonical: ep_canon(result.Epochs)
+
+// importing stores every epoch of the document unchanged, under its identifier
+func InitGenesis
+    modifies ep_has, ep_val
+    requires inv: ep_inv(ep_has, ep_val)
+    ensures domain: ep_has == ep_ins_has(old(ep_has), genState.Epochs, len(genState.Epochs))
+    ensures values: ep_val == ep_ins_val(old(ep_val), genState.Epochs, len(genState.Epochs))
+    ensures inv: ep_inv(ep_has, ep_val)
+    loop 1 invariant idx: 0 <= #i && #i <= len(genState.Epochs)
+    loop 1 invariant domain: ep_has == ep_ins_has(old(ep_has), genState.Epochs, #i)
+    loop 1 invariant values: ep_val == ep_ins_val(old(ep_val), genState.Epochs, #i)
+    loop 1 invariant inv: ep_inv(ep_has, ep_val)
+@*/
+
+/*@
+// ---- C19 round trip (ghost compositions in zz_roundtrip_verif.go)
+// a fresh chain has an empty epochs store
+func verifFreshChain
+    trusted
+    modifies ep_has, ep_val
+    ensures ep_has == ep_none()
+func verifReimport
+    modifies ep_has, ep_val
+    requires inv: ep_inv(ep_has, ep_val)
+    ensures same_state: ep_same(ep_has, ep_val, old(ep_has), old(ep_val))
+func verifReexport
+    modifies ep_has, ep_val
+    requires canonical: ep_canon(g.Epochs)
+    ensures same_document: result != nil && seqeq(result.Epochs, g.Epochs)
+@*/
